@@ -1,8 +1,11 @@
 package props
 
 import (
+	"net/http"
+
 	"context"
 	"fmt"
+	"github.com/gorilla/websocket"
 	"strings"
 	"time"
 
@@ -92,6 +95,11 @@ func (c06) Plan(tier string, seed int64) []core.Scenario {
 	for i := 0; i < nCh; i++ {
 		out = append(out, core.Sc("churn").WithN("long", 1+i%3).WithN("rounds", 2+i%4).WithN("unary", i%2))
 	}
+	for set := 0; set < 6; set++ {
+		for order := 0; order < 2; order++ {
+			out = append(out, core.Sc("rawids").WithN("set", set).WithN("order", order))
+		}
+	}
 	for i := range out {
 		out[i].Seed = seed*15485863 + int64(i)
 		out[i] = out[i].WithN("noise", i%3)
@@ -101,6 +109,10 @@ func (c06) Plan(tier string, seed int64) []core.Scenario {
 
 func (p c06) Run(sc core.Scenario) core.Result {
 	r := core.NewR(sc)
+	if sc.Kind == "rawids" {
+		p.rawIDs(sc, r)
+		return r.Result()
+	}
 	switch sc.Kind {
 	case "cancel":
 		p.cancel(sc, r)
@@ -614,4 +626,64 @@ func (c06) w3(sc core.Scenario, r *core.R) {
 	r.Obs("w3_formed", b2i(formed))
 	r.Sig(core.Log.Signature())
 	r.Sample(map[string]interface{}{"window": "cancel parked until the response was delivered", "siblings": len(others), "formed": formed})
+}
+
+// rawIDs: a peer that is not this library's client has several calls in flight whose ids are different
+// JSON values that look alike (7 and "7", 1.5 and "1.5", "" and 0) and cancels some of them by id.
+// Exactly the handlers of the cancelled ids see their context cancelled.
+func (c06) rawIDs(sc core.Scenario, r *core.R) {
+	env := NewEnv(EnvOpt{NoProxy: true})
+	defer env.Shutdown()
+	conn, _, err := websocket.DefaultDialer.Dial("ws://"+env.TS.Listener.Addr().String(), http.Header{})
+	if err != nil {
+		r.Inconclusive("dial: %v", err)
+		return
+	}
+	defer conn.Close()
+	go func() {
+		for {
+			if _, _, err := conn.ReadMessage(); err != nil {
+				return
+			}
+		}
+	}()
+	sets := [][]string{{`7`, `"7"`}, {`"7"`, `7`}, {`1.5`, `"1.5"`, `15`}, {`""`, `0`, `"0"`}, {`"null"`, `"true"`, `1`}, {`100`, `"1e2"`, `"100"`}}
+	ids := sets[sc.I("set")%len(sets)]
+	toks := make([]string, len(ids))
+	for i, id := range ids {
+		toks[i] = Tok("h")
+		env.Svc.Hold(toks[i])
+		req := fmt.Sprintf(`{"jsonrpc":"2.0","id":%s,"method":"S.Echo","params":[%q,""]}`, id, toks[i])
+		if err := conn.WriteMessage(websocket.TextMessage, []byte(req)); err != nil {
+			r.Inconclusive("write: %v", err)
+			return
+		}
+	}
+	for _, t := range toks {
+		if !env.Svc.WaitEntered(t, core.Grace) {
+			r.Inconclusive("handler %s not entered", t)
+			return
+		}
+	}
+	// cancel in the order given by "order": one id at a time, checking after each that only it was cancelled
+	cancelled := map[int]bool{}
+	for step := 0; step < len(ids)-1; step++ {
+		i := (sc.I("order") + step) % len(ids)
+		conn.WriteMessage(websocket.TextMessage, []byte(fmt.Sprintf(`{"jsonrpc":"2.0","method":"xrpc.cancel","params":[%s]}`, ids[i])))
+		cancelled[i] = true
+		r.Obs("raw_cancels", 1)
+		if !core.Eventually(core.Grace, func() bool { return env.Svc.Get(toks[i]).Ctx.Err() != nil }) {
+			r.Violate("cancel-not-delivered:raw-id", "calls in flight with ids %v; xrpc.cancel [%s] did not cancel the handler of the call with that id", ids, ids[i])
+		}
+		time.Sleep(20 * time.Millisecond)
+		for j := range ids {
+			if !cancelled[j] && env.Svc.Get(toks[j]).Ctx.Err() != nil {
+				r.Violate("cancel-hit-bystander:raw-id", "calls in flight with ids %v; after xrpc.cancel for %v the handler of the call with id %s (never cancelled) saw its context cancelled", ids, ids[i], ids[j])
+				cancelled[j] = true
+			}
+		}
+	}
+	env.Svc.ReleaseAll()
+	r.Key(fmt.Sprintf("rawids set=%d order=%d", sc.I("set")%len(sets), sc.I("order")), true)
+	r.Sample(map[string]interface{}{"scenario": "look-alike ids of different JSON type in flight, cancelled one by one by a raw websocket peer", "ids": ids})
 }
